@@ -686,6 +686,8 @@ pub trait Probe: Flat + DeepRead {
     const STATIC_SIZE: Option<usize>;
     /// `Self::default_in_place(bytes)` when the type has a default.
     fn dflt(bytes: &mut [u8]) -> Option<Result<(), Error>>;
+    /// `FlatWrap::<Self, &mut [u8]>::default_in_place(bytes)` when the type has a default.
+    fn wrap_dflt(bytes: &mut [u8]) -> Option<Result<(), Error>>;
 }
 
 pub trait Ops {
@@ -913,7 +915,21 @@ where
             let r2 = res_s(&T::new_in_place(c.slice_mut(), Dyn(spec)).map(|_| ()));
             let v1 = res_s(&T::validate(b.slice()));
             let v2 = res_s(&T::validate(c.slice()));
-            if r1 == r2 && v1 == v2 && b.guards_intact() { "same".to_string() } else { format!("DIFF:{}:{}:{}:{}", r1, r2, v1, v2) }
+            // the wrapper derefs (shared and mutable) to the value it constructed, and into_inner gives the
+            // buffer back
+            let mut views = true;
+            let mut d = Arena::new(off, bytes, 0x55);
+            if let Ok(mut w) = ::flatty::FlatWrap::<T, &mut [u8]>::new_in_place(d.slice_mut(), Dyn(spec)) {
+                let direct = deep_s(unsafe { T::from_bytes_unchecked(c.slice()) });
+                views = deep_s(&*w) == direct && deep_s(&*(&mut *w)) == direct && (&mut *w).size() == (*w).size();
+                let inner: &mut [u8] = w.into_inner();
+                views = views && inner.len() == c.slice().len();
+            }
+            if r1 == r2 && v1 == v2 && views && b.guards_intact() && d.guards_intact() {
+                "same".to_string()
+            } else {
+                format!("DIFF:{}:{}:{}:{}:{}", r1, r2, v1, v2, views)
+            }
         });
         write!(out, " wrap={}", w).unwrap();
         out
@@ -928,10 +944,34 @@ where
         })
     }
     fn default(&self, off: usize, bytes: &[u8]) -> String {
-        dual_mut(off, bytes, |a| match T::dflt(a.slice_mut()) {
+        let mut out = dual_mut(off, bytes, |a| match T::dflt(a.slice_mut()) {
             Some(r) => after_emplace::<T>(a, r),
             None => "no-default".into(),
-        })
+        });
+        // FlatWrap::default_in_place must do exactly what default_in_place does
+        let w = guarded(|| {
+            let mut b = Arena::new(off, bytes, 0x55);
+            let mut c = Arena::new(off, bytes, 0x55);
+            match (T::wrap_dflt(b.slice_mut()), T::dflt(c.slice_mut())) {
+                (Some(r1), Some(r2)) => {
+                    // (padding bytes of a ptr.write are unspecified: compare verdict and content, not raw bytes)
+                    let same_state = match (T::from_bytes(b.slice()), T::from_bytes(c.slice())) {
+                        (Ok(x), Ok(y)) => deep_s(x) == deep_s(y) && x.size() == y.size(),
+                        (Err(e1), Err(e2)) => kind_s(&e1) == kind_s(&e2),
+                        _ => false,
+                    };
+                    if res_s(&r1) == res_s(&r2) && same_state && b.guards_intact() {
+                        "same".to_string()
+                    } else {
+                        format!("DIFF:{}:{}", res_s(&r1), res_s(&r2))
+                    }
+                }
+                (None, None) => "same".to_string(),
+                _ => "DIFF:availability".to_string(),
+            }
+        });
+        write!(out, " wrap={}", w).unwrap();
+        out
     }
     fn io(&self, kind: &str, args: &[&str]) -> String {
         crate::io_suite::run_io::<T>(kind, args)
